@@ -90,6 +90,14 @@ func (c *Cmd) script() string {
 		// a command started directly: the mini shell knows a few
 		return strings.Join(c.Args, " ")
 	}
+	if len(c.Args) == 2 && !strings.HasPrefix(c.Args[1], "-") {
+		// bash SCRIPTFILE: the script is read from the (simulated) file
+		data, err := simrt.S.FS.GoReadFile(c.Args[1])
+		if err != nil {
+			return "exit 127"
+		}
+		return string(data)
+	}
 	simrt.S.HarnessFail("exec of " + strings.Join(c.Args, " ") + " is not modelled")
 	return ""
 }
